@@ -1347,6 +1347,77 @@ def c16_first_key_wins(ctx):
     return q.result()
 
 
+def c08_rename_by_record_kind(ctx):
+    q = Q("c08_rename_by_record_kind", ["Zeroconf::conflict_handler::{closure} (choosing the new name for a conflicting record)"],
+          "every path of the closure that renames; the record type arbitrary", ["calls are opaque; the type test is an opaque switch explored on every target"])
+    cands = [n for n in ctx.funcs if "::conflict_handler::{closure#" in n and any("hostname_change(" in t or "name_change(" in t for _, (st, t) in ctx.funcs[n].blocks.items())]
+    if len(cands) != 1:
+        q.unknown.append(f"renaming closure: {len(cands)} candidates")
+        return q.result()
+    f = ctx.funcs[cands[0]]
+    ex = Explorer(ctx.funcs, ctx.consts, pure_accessors={"get_type"}, max_paths=600)
+    kinds = {}
+    for p in ex.explore(f.name):
+        calls = [e[1].split("::")[-1] for e in p.events if e[0] == "call"]
+        change = [c for c in calls if c in ("hostname_change", "name_change")]
+        if not change:
+            continue
+        idx = max(j for j, e in enumerate(p.events) if e[0] == "call" and e[1].split("::")[-1] in ("hostname_change", "name_change"))
+        ds = [e for e in p.events[:idx] if e[0] == "discr"]
+        if not ds:
+            q.unknown.append("the record type is not consulted before renaming")
+            continue
+        e = ds[-1][3].e
+        for name, val in (("A", 1), ("AAAA", 28), ("SRV", 33), ("TXT", 16), ("PTR", 12)):
+            r, _ = q.d.check(p.cond + [e == z3.BitVecVal(val, e.size())], f"kind {name} -> {change[0]}?")
+            if r == "sat":
+                kinds.setdefault(name, set()).add(change[0])
+    want = {"A": {"hostname_change"}, "AAAA": {"hostname_change"}, "SRV": {"name_change"}, "TXT": {"name_change"}}
+    for k, w in want.items():
+        if kinds.get(k) != w:
+            q.fail.append((f"a conflict on a {k} record must be resolved with {sorted(w)[0]} (host names get '-N', instance names ' (N)'; the two address families must agree)", f"{k} -> {sorted(kinds.get(k, []))}"))
+    if kinds:
+        q.nontrivial += len(kinds)
+    else:
+        q.unknown.append("no renaming path")
+    return q.result()
+
+
+def c08_answer_uses_resolved_host(ctx):
+    q = Q("c08_answer_uses_resolved_host", ["Zeroconf::handle_query (address answers for a host question)"],
+          "every DnsAddress::new call site of handle_query (static def-use of the owner-name operand in MIR)", ["MIR locals holding call results are assigned once"])
+    f = ctx.funcs[ctx.fn("::handle_query")]
+    defs = {}
+    for b, (st, t) in f.blocks.items():
+        m = re.match(r"(_\d+) = (.+?)\((.*)\) -> ", t, re.S)
+        if m:
+            defs.setdefault(m.group(1), []).append(m.group(2))
+        for x in st:
+            m2 = re.match(r"(_\d+) = (?:copy|move) (_\d+);", x)
+            if m2:
+                defs.setdefault(m2.group(1), []).append("=" + m2.group(2))
+    sites = 0
+    for b, (st, t) in f.blocks.items():
+        m = re.match(r"(_\d+) = DnsAddress::new\((?:copy|move) (_\d+),", t)
+        if not m:
+            continue
+        sites += 1
+        loc = m.group(2)
+        seen = set()
+        while loc in defs and len(defs[loc]) == 1 and defs[loc][0].startswith("=") and loc not in seen:
+            seen.add(loc)
+            loc = defs[loc][0][1:]
+        prod = defs.get(loc, [])
+        if len(prod) == 1 and prod[0].endswith("resolve_name"):
+            q.nontrivial += 1
+        else:
+            q.fail.append(("an address answer is built under a host name that did not go through the registry's name resolution (after a host rename the answer would carry the old name)",
+                           f"block {b}: owner operand {m.group(2)} is produced by {prod}"))
+    if sites == 0:
+        q.unknown.append("no DnsAddress::new call in handle_query")
+    return q.result()
+
+
 def z3_vars(e):
     out, seen, stack = [], set(), [e]
     while stack:
@@ -1545,7 +1616,7 @@ SPECS = {
     "C07": [c07_probe_clock, c07_reannounce_delay],
     "C12": [c12_poll_timeout, c12_ipcheck_rearm, c12_hostname_timeout_timer, c12_conflict_probe_timer, c12_tiebreak_retry_timer, c11_cache_flush_rule, c05_verify_deadline],
     "C19": [c19_browse_backoff, c19_hostname_backoff, c19_resolve_retry, c19_initial_delay, c19_rerun_due, c19_browse_listener_gone],
-    "C08": [c08_tiebreak_count_operands],
+    "C08": [c08_tiebreak_count_operands, c08_rename_by_record_kind, c08_answer_uses_resolved_host],
     "C16": [c16_decode_txt_step, c16_first_key_wins],
     "C01": [c01_name_cap_operand],
     "C15": [c01_name_cap_operand, c16_decode_txt_step],
